@@ -169,7 +169,7 @@ Definition uncovered_rows : list N := [65; 66; 67; 68; 69].
 (* (stated without an intermediate definition: the kernel would otherwise evaluate the table lazily when
    it converts the definition with its unfolding) *)
 Lemma coverage_ok :
-  forallb (fun r => row_covered r || existsb (N.eqb (rx_index r)) uncovered_rows) rx_table = true. Proof. vm_compute. reflexivity. Qed.
+  forallb (fun r => row_covered r || existsb (N.eqb (rx_index r)) uncovered_rows) rx_table = true. Proof. vm_cast_no_check (eq_refl true). Qed.
 
 Lemma forallb_or_in {X} (f : X -> bool) (idx : X -> N) (ex : list N) (l : list X) :
   forallb (fun r => f r || existsb (N.eqb (idx r)) ex) l = true ->
@@ -199,7 +199,7 @@ Section Covered.
 
   Lemma cov_parts : chain_ok OAbs (rx_re row) p = true /\ fields_located row p = true /\ rx_start row = 0.
   Proof.
-    unfold plan_covers in Hcov. repeat (apply andb_true_iff in Hcov as [Hcov ?]).
+    unfold plan_covers, plan_covers_at in Hcov. repeat (apply andb_true_iff in Hcov as [Hcov ?]).
     repeat split; auto. apply N.eqb_eq; auto.
   Qed.
 
@@ -316,3 +316,108 @@ Proof. intros H. pose proof examples_ok as E. rewrite forallb_forall in E. auto.
 (* every row documents at least one example *)
 Lemma examples_every_row : forallb (fun r => existsb (fun ex => ex_row ex =? rx_index r) rx_examples) rx_table = true.
 Proof. vm_compute. reflexivity. Qed.
+
+(* ------------------------------------------------------------------ the same with text IN FRONT of the timestamp
+   (unanchored rows): a prefix every offset of which is dead ([pre_ok], decided by the symbolic engine on
+   windows of one or two bytes) is skipped by the leftmost search, which then lands on the timestamp; the
+   plan is the one generated for a match attempt at an offset >= 1 (o = ONz), or the usual one when the
+   prefix is empty (o = OAbs) *)
+Lemma sub_nth_pre (pre : bytes) j (texts : list (list N)) rest :
+  (j < length texts)%nat ->
+  sub (pre ++ concat texts ++ rest)
+      (N.of_nat (length pre) + clen (firstn j texts), N.of_nat (length pre) + clen (firstn (S j) texts))
+  = nth j texts [].
+Proof.
+  intros H. unfold sub, clen. cbn [fst snd].
+  rewrite (concat_firstn_S j texts H), app_length.
+  rewrite (concat_split j texts H) at 1.
+  replace (N.to_nat (N.of_nat (length pre) + N.of_nat (length (concat (firstn j texts)) + length (nth j texts [])) -
+                     (N.of_nat (length pre) + N.of_nat (length (concat (firstn j texts))))))
+    with (length (nth j texts [])) by lia.
+  replace (N.to_nat (N.of_nat (length pre) + N.of_nat (length (concat (firstn j texts)))))
+    with (length pre + length (concat (firstn j texts)))%nat by lia.
+  rewrite <- skipn_skipn_add, skipn_app_len.
+  rewrite <- !app_assoc. rewrite skipn_app_len. apply firstn_app_len.
+Qed.
+
+Section CoveredAt.
+  Variable row : rx_row.
+  Variable p : plan.
+  Variable o : org.
+  Hypothesis Hcov : plan_covers_at o row p = true.
+  Hypothesis Hrange : names_in_range row = true.
+
+  Variables (pre : bytes) (texts : list bytes) (rest tail : bytes) (line : bytes).
+  Hypothesis Horg : match o with OAbs => pre = [] | ONz => pre <> [] | OUnk => False end.
+  Hypothesis Hpre : pre_ok (rx_re row) OAbs pre (hd_opt (concat texts ++ rest)) = true.
+  Hypothesis Hslice : slice_of row line = Some (pre ++ concat texts ++ rest).
+  Hypothesis Hline : line = (pre ++ concat texts ++ rest) ++ tail.
+  Hypothesis Hfit : texts_ok p texts rest = true.
+
+  Let k : N := N.of_nat (length pre).
+  Let fin : cst := mkC (k + clen texts) rest (final_caps p texts rest k).
+
+  Lemma cov_parts_at : chain_ok o (rx_re row) p = true /\ fields_located row p = true /\ rx_start row = 0.
+  Proof.
+    unfold plan_covers_at in Hcov. repeat (apply andb_true_iff in Hcov as [Hcov ?]).
+    repeat split; auto. apply N.eqb_eq; auto.
+  Qed.
+
+  Theorem covered_at_spans :
+    row_spans row line = Match (Some (spans_of (rx_ncap row) (k, fin))).
+  Proof.
+    destruct cov_parts_at as (Hc & _ & H0).
+    unfold row_spans. rewrite Hslice. unfold search, fuel_for.
+    assert (HF0 : (length (pre ++ concat texts ++ rest) < S (length (pre ++ concat texts ++ rest)))%nat) by lia.
+    rewrite (pre_ok_search (rx_re row) pre OAbs 0 (concat texts ++ rest) (S (length (pre ++ concat texts ++ rest))) Hpre eq_refl HF0).
+    assert (Hi : inv (pre ++ concat texts ++ rest) (mkC (0 + N.of_nat (length pre)) (concat texts ++ rest) [])).
+    { apply inv_start.
+      - rewrite app_length. lia.
+      - replace (N.to_nat (0 + N.of_nat (length pre))) with (length pre) by lia.
+        rewrite skipn_app_len. reflexivity. }
+    assert (Ho : org_ok (0 + N.of_nat (length pre)) o).
+    { unfold org_ok. destruct o; auto.
+      - rewrite Horg. reflexivity.
+      - destruct pre; [contradiction|]. simpl. lia. }
+    assert (HF : (length (concat texts ++ rest) < S (length (pre ++ concat texts ++ rest)))%nat) by (rewrite (app_length pre); lia).
+    rewrite (search_from_hit _ _ _ _ _ (plan_match_at o (rx_re row) p (pre ++ concat texts ++ rest) texts rest (0 + N.of_nat (length pre)) (S (length (pre ++ concat texts ++ rest))) Hc Hfit Hi Ho HF)).
+    rewrite H0, shift_span_0. unfold fin, clen, k. rewrite !N.add_0_l. reflexivity.
+  Qed.
+
+  Lemma field_text_plan_at f : In f [0; 1; 2; 3; 4; 5; 6; 7; 8] ->
+    field_text row line (spans_of (rx_ncap row) (k, fin)) f = oo (plan_field row p texts f).
+  Proof.
+    intros Hf. destruct cov_parts_at as (_ & Hl & _).
+    unfold fields_located in Hl. rewrite forallb_forall in Hl. specialize (Hl _ Hf).
+    unfold field_text, field_span, plan_field.
+    destruct (assocN f (rx_names row)) as [g|] eqn:Eg; [|reflexivity].
+    assert (Hg : 1 <= g /\ g <= rx_ncap row).
+    { unfold names_in_range in Hrange. repeat (apply andb_true_iff in Hrange as [Hrange ?]).
+      rewrite forallb_forall in Hrange.
+      assert (Hin : In (f, g) (rx_names row)).
+      { clear - Eg. induction (rx_names row) as [|[k0 v] l IH]; simpl in *; [discriminate|].
+        destruct (k0 =? f) eqn:E; [apply N.eqb_eq in E; inversion Eg; subst; auto|auto]. }
+      specialize (Hrange _ Hin). simpl in Hrange. apply andb_true_iff in Hrange as [A B].
+      apply N.leb_le in A. apply N.leb_le in B. auto. }
+    rewrite (spans_of_nth _ _ _ (proj1 Hg) (proj2 Hg)). simpl.
+    destruct (group_seg p g) as [j|] eqn:Ej.
+    - destruct (plan_group g p j texts rest k Ej Hfit) as [Hlk Hj]. rewrite Hlk. cbn [option_map oo].
+      rewrite Hline, <- app_assoc. f_equal. unfold k.
+      rewrite <- (app_assoc (concat texts) rest tail). apply sub_nth_pre; auto.
+    - rewrite Hl. unfold group_never in Hl. rewrite (absent_none g p texts rest k Hl). reflexivity.
+  Qed.
+
+  Theorem covered_at_caps : caps_of row line (spans_of (rx_ncap row) (k, fin)) = plan_caps row p texts.
+  Proof.
+    unfold caps_of, plan_caps.
+    rewrite !field_text_plan_at by (simpl; tauto). reflexivity.
+  Qed.
+
+  Theorem covered_at_dated mt tzt d yo off :
+    option_map (fun x => fst (fst x)) (dated_model mt tzt row d line yo off) =
+    model_instant mt tzt d (plan_caps row p texts) yo off.
+  Proof.
+    unfold dated_model. rewrite covered_at_spans, covered_at_caps.
+    destruct (model_instant mt tzt d (plan_caps row p texts) yo off); reflexivity.
+  Qed.
+End CoveredAt.
